@@ -65,17 +65,22 @@ type cfg struct {
 	reduceL  int
 	concatN  int
 	concatL  int
+	twoTests []string
+	longLo   int // stable-sort long inputs
+	longHi   int
 }
 
 func config(tier string) cfg {
 	if tier == engine.Thorough {
 		return cfg{itemL: 5, letters: "abc", sletters: "bBc", items: "b", edgeL: 4, assocL: 5,
 			twoL1: 3, twoL2: 4, twoAB: "ab", twoSAB: "aAb", subL: 6, sortL: 8, sortSL: 6, sortAB: "abc", sortSAB: "aAbB",
-			mergeL: 4, setL: 4, quantL1: 6, quantL2: 4, mapL: 4, reduceL: 5, concatN: 3, concatL: 2}
+			mergeL: 4, setL: 4, quantL1: 6, quantL2: 4, mapL: 4, reduceL: 5, concatN: 3, concatL: 2,
+			twoTests: []string{"", "equal", "lam"}, longLo: 13, longHi: 15}
 	}
 	return cfg{itemL: 4, letters: "abc", sletters: "bBc", items: "b", edgeL: 3, assocL: 4,
 		twoL1: 2, twoL2: 3, twoAB: "ab", twoSAB: "aAb", subL: 4, sortL: 6, sortSL: 5, sortAB: "abc", sortSAB: "aAb",
-		mergeL: 3, setL: 3, quantL1: 4, quantL2: 3, mapL: 3, reduceL: 4, concatN: 2, concatL: 2}
+		mergeL: 3, setL: 3, quantL1: 4, quantL2: 3, mapL: 3, reduceL: 4, concatN: 2, concatL: 2,
+		twoTests: []string{"", "lam"}, longLo: 13, longHi: 13}
 }
 
 func bound(tier string) string {
@@ -90,12 +95,28 @@ func bound(tier string) string {
 		"x :key (absent, car on (sym . id) pairs / char-downcase) x :test (absent, eql, an order lambda) x :count (absent 0 1 2) x "+
 		":from-end; :count nil/-1 and :test-not on length 0..%d; member/assoc/rassoc (+ -if, assoc-if-not) on lists 0..%d; "+
 		"search/mismatch/replace: sequence-1 0..%d x sequence-2 0..%d over %q/%q, all explicit start/end pairs of both, list/vector/string "+
-		"and mixed; subseq/fill/reverse 0..%d; sort/stable-sort 0..%d (strings 0..%d) x two predicates x :key; merge of sorted inputs "+
+		"and mixed; subseq/fill/reverse 0..%d; sort/stable-sort 0..%d (strings 0..%d) x two predicates x :key, plus every list/vector of "+
+		"pairs over 2 letters of length %d..%d; merge of sorted inputs "+
 		"0..%d each x result types; union/intersection/set-difference/subsetp (+ n-variants) lists 0..%d; every/some/notany/notevery one "+
 		"sequence 0..%d, two 0..%d; map/mapcar 0..%d; reduce 0..%d x bounds x :key x :from-end x :initial-value; concatenate of up to %d "+
 		"sequences 0..%d%s",
-		c.itemL, c.letters, c.sletters, c.edgeL, c.assocL, c.twoL1, c.twoL2, c.twoAB, c.twoSAB, c.subL, c.sortL, c.sortSL, c.mergeL,
+		c.itemL, c.letters, c.sletters, c.edgeL, c.assocL, c.twoL1, c.twoL2, c.twoAB, c.twoSAB, c.subL, c.sortL, c.sortSL, c.longLo, c.longHi, c.mergeL,
 		c.setL, c.quantL1, c.quantL2, c.mapL, c.reduceL, c.concatN, c.concatL, extra)
+}
+
+// wordsOfLen: every word over letters of exactly length n.
+func wordsOfLen(letters string, n int) []string {
+	out := []string{""}
+	for i := 0; i < n; i++ {
+		var next []string
+		for _, p := range out {
+			for _, l := range letters {
+				next = append(next, p+string(l))
+			}
+		}
+		out = next
+	}
+	return out
 }
 
 // allSeqs: every word over letters of length 0..max, shortest first.
@@ -253,7 +274,7 @@ func enumerateFn(tier, only string, emit func(string)) {
 			itemGrid(fn, cf.letters, cf.sletters, cf.items, cf.itemL)
 		}
 	}
-	// :count nil / negative, :test-not (accepted: the defined value or a Lisp error)
+	// :count nil (accepted: the defined value or a Lisp error) and negative :count
 	for _, fn := range allItem {
 		if !want(fn) {
 			continue
@@ -279,13 +300,6 @@ func enumerateFn(tier, only string, emit func(string)) {
 						for _, cnt := range []string{"nil", "-1"} {
 							c := mk()
 							c.count = cnt
-							out(c)
-						}
-					}
-					if !isIf {
-						for _, key := range []bool{false, true} {
-							c := mk()
-							c.test, c.key = "not", key
 							out(c)
 						}
 					}
@@ -379,7 +393,7 @@ func enumerateFn(tier, only string, emit func(string)) {
 										continue
 									}
 									for _, key := range []bool{false, true} {
-										for _, test := range []string{"", "equal", "lam"} {
+										for _, test := range cf.twoTests {
 											for _, fe := range []bool{false, true} {
 												c := &call{fn: fn, typs: string(t1) + string(t2), seqs: []string{s1, s2}, key: key, test: test, fromEnd: fe}
 												c.setBounds(b1)
@@ -446,6 +460,22 @@ func enumerateFn(tier, only string, emit func(string)) {
 					for _, pred := range []string{"lt", "gtp"} {
 						for _, key := range []bool{false, true} {
 							out(&call{fn: fn, typs: string(t), seqs: []string{seq}, pred: pred, key: key})
+						}
+					}
+				}
+			}
+		}
+	}
+
+	// ---- stable-sort beyond the length where library sorts switch from insertion sort (12) to an
+	// unstable algorithm: every list and vector of (sym . id) pairs over two letters
+	if want("stable-sort") || want("sort") {
+		for n := cf.longLo; n <= cf.longHi; n++ {
+			for _, seq := range wordsOfLen("ab", n) {
+				for _, typ := range "LV" {
+					for _, fn := range []string{"stable-sort", "sort"} {
+						if want(fn) {
+							out(&call{fn: fn, typs: string(typ), seqs: []string{seq}, pred: "lt", key: true})
 						}
 					}
 				}
